@@ -532,6 +532,10 @@ class FST:
                                            s_to,
                                            out_symbols)
         for node in graph.nodes:
+            if "is_start" in graph.nodes[node] or \
+                    "is_final" in graph.nodes[node]:
+                # Also a state without any transition is a state
+                fst._states.add(node)
             if graph.nodes[node].get("is_start", False):
                 fst.add_start_state(node)
             if graph.nodes[node].get("is_final", False):
